@@ -356,9 +356,33 @@ class SoftwareSwitchBase (object):
 
     body = handler(ofp, connection=connection)
     if body is not None:
-      reply = ofp_stats_reply(xid=ofp.xid, type=ofp.type, body=body)
-      self.log.debug("Sending stats reply %s", reply)
-      self.send(reply)
+      parts = self._split_stats_body(body)
+      for i,part in enumerate(parts):
+        reply = ofp_stats_reply(xid=ofp.xid, type=ofp.type, body=part)
+        reply.is_last_reply = (i == len(parts) - 1)
+        self.log.debug("Sending stats reply %s", reply)
+        self.send(reply)
+
+  @staticmethod
+  def _split_stats_body (body):
+    """
+    Split a list of stats entries into parts which each fit in one message
+
+    An OpenFlow message can't be longer than 65535 bytes, so a long list
+    (e.g., of flow stats) is sent as several replies; all but the last
+    have OFPSF_REPLY_MORE set.
+    """
+    if not isinstance(body, (list, tuple)): return [body]
+    limit = 0xffff - 12 # ofp_stats_reply header is 12 bytes
+    parts = [[]]
+    size = 0
+    for entry in body:
+      if size + len(entry) > limit and parts[-1]:
+        parts.append([])
+        size = 0
+      parts[-1].append(entry)
+      size += len(entry)
+    return parts
 
   def _rx_set_config (self, config, connection):
     self.miss_send_len = config.miss_send_len
